@@ -26,7 +26,12 @@ def content(rng, tag):
     if rng.random() < 0.15:
         lines.append(b"[A]")
         lines.append(b"late=" + tag)
-    return b"\n".join(l for l in lines if l) + b"\n"
+    lines = [l for l in lines if l]
+    if rng.random() < 0.12:
+        # a value without a key (the line begins with the delimiter): such a line is passed over, with or without a comment before it
+        at = rng.randint(0, len(lines))
+        lines[at:at] = ([b"# about the next line"] if rng.random() < 0.5 else []) + [b"=orphan_" + tag]
+    return b"\n".join(lines) + b"\n"
 
 
 MALFORMED = [b"[nobracket\n", b"[x] tail\n", b"[]\n", b"key value\n"]
@@ -202,5 +207,60 @@ def tree_scenario(sid, rng, shape=None, cb=None, malformed_at=None):
     if True:
         s.add("SLOT", 0)
     s.add("ERRLOC")
+    s.add("FREE", 0)
+    return s, p, t
+
+
+def reuse_scenario(sid, rng):
+    """two layered reads through ONE handle: the second read has to return the configuration that belongs to its own
+    arguments (after a successful read the handle holds the merged result, which carries no options; after a failed
+    read on a handle made with PARSING_DIRS the handle still carries that list).  -> scenario, p (of the second read), tree (both trees)"""
+    from checks import trees
+    tg = Tagger()
+    kind = rng.choice(["after_success", "after_success", "after_failure_pdirs"])
+    t = Tree()
+    if kind == "after_success":
+        for _ in range(20):
+            shape = rng.choice(["project", "noproject", "rootprefix", "parsingdirs", "configdirs", "dropinonly"])
+            p1 = shape_params(rng, shape)
+            if p1["global_confdirs"] is not None:
+                continue   # a process-wide list would outlive the first read
+            t1 = random_tree(rng, p1["dirs"], p1["name"], p1["dsfx"], p1["postfixes"], tg, decoys=p1["decoys"], p_main=0.8)
+            main, drops = trees.consulted(trees.TreeView(t1), p1["dirs"], p1["name"], p1["dsfx"], p1["postfixes"])
+            if main or drops:
+                break
+        else:
+            raise RuntimeError("no first tree")
+        # the second read: another project and/or another vendor directory and/or another name
+        prj2 = rng.choice([b"other", b"prj", None])
+        usr2 = rng.choice([b"/opt/etc", b"/usr/etc", b"/usr/lib"])
+        name2 = rng.choice([b"cfg", b"second"])
+        if (prj2, usr2, name2) == (p1["call"][1], p1["call"][2], p1["name"]):
+            prj2 = b"other"
+        sfx = p1["suffix"]
+        dsfx = p1["dsfx"]
+        dirs2 = [usr2 + b"/" + prj2, b"/run/" + prj2, b"/etc/" + prj2] if prj2 else [usr2, b"/run", b"/etc"]
+        p = {"name": name2, "suffix": sfx, "dsfx": dsfx, "pre": [], "slot_pre": None, "global_confdirs": None, "decoys": None,
+             "dirs": dirs2, "postfixes": [dsfx + b".d"], "call": ("RC", prj2, usr2, name2, sfx)}
+        t2 = random_tree(rng, dirs2, name2, dsfx, p["postfixes"], tg, p_main=0.8)
+        have = set(f[0] for f in t1.files)
+
+        def clashes(path):
+            # the same name, a directory of the first tree where the second wants a file, or the other way round
+            return any(q == path or q.startswith(path + b"/") or path.startswith(q + b"/") and k != "dir" for q, k, _, _, _ in t1.files)
+        t.files = t1.files + [f for f in t2.files if not clashes(f[0])]
+        first = p1
+    else:
+        p = shape_params(rng, "parsingdirs")
+        t = random_tree(rng, p["dirs"], p["name"], p["dsfx"], p["postfixes"], tg, p_main=0.8)
+        first = dict(p)
+        first["call"] = ("RC", b"prj", b"/usr/etc", b"missing", p["suffix"])
+    s = Scenario(sid, {"shape": "reuse_" + kind, "suffix": p["suffix"], "nfiles": len(t.files), "reuse": kind})
+    t.emit(s)
+    s.add("LOGOPEN", 1)
+    emit_read(s, first, 0)
+    _, prj, usr, name, sfx = p["call"]
+    s.add("RC", 0, h(prj), h(usr), h(name), h(sfx), h(b"="), h(b"#"))
+    s.add("RAW", 0)
     s.add("FREE", 0)
     return s, p, t
